@@ -30,7 +30,8 @@ Proof.
   rewrite (list_eqb_refl _ tokobs_eqb_refl).
   rewrite !(list_eqb_refl _ (opt_eqb_refl N.eqb N.eqb_refl)), (opt_eqb_refl N.eqb N.eqb_refl).
   rewrite (list_eqb_refl _ bool_eqb_refl).
-  rewrite (list_eqb_refl _ (list_eqb_refl _ logent_eqb_refl)). reflexivity.
+  rewrite (list_eqb_refl _ (list_eqb_refl _ logent_eqb_refl)).
+  rewrite !(list_eqb_refl _ bool_eqb_refl). reflexivity.
 Qed.
 Lemma out_eqb_refl x : out_eqb x x = true.
 Proof. destruct x; cbn; [apply Z.eqb_refl|reflexivity]. Qed.
@@ -101,7 +102,8 @@ Proof. intros W. rewrite memb_In. apply enumeration_In. exact W. Qed.
 Lemma al_consistent_model c st S :
   al_wf (al st) -> al_set (al st) S -> al_consistent c S (observe c st) = true.
 Proof.
-  intros W HS. unfold al_consistent, observe. cbn [o_count o_enum o_past o_idx o_allowed o_flcount].
+  intros W HS. unfold al_consistent, observe. cbn [o_count o_enum o_past o_idx o_allowed o_flcount o_exec o_mgr].
+  rewrite !(list_eqb_refl _ bool_eqb_refl), !andb_true_r.
   set (a := al st) in *.
   assert (H1 : N.eqb (al_count a) (N.of_nat (length (enumeration a))) = true).
   { unfold enumeration. rewrite enum_from_length. apply N.eqb_eq. lia. }
@@ -111,7 +113,7 @@ Proof.
   assert (H3 : forallb (fun t => memb t (strip (enumeration a))) S = true).
   { apply forallb_forall. intros t Ht. apply memb_In. apply (enumeration_In a W). apply HS.
     apply memb_In. exact Ht. }
-  rewrite H2, H3. cbn [andb]. rewrite andb_true_r.
+  rewrite H2, H3. cbn [andb].
   apply all3_map. intros t _. rewrite (find_index_enumeration a W).
   rewrite (opt_eqb_refl N.eqb N.eqb_refl). cbn [andb]. unfold is_allowed.
   destruct (N.eqb (al_count a) 0); cbn [orb]; [reflexivity|].
